@@ -47,7 +47,7 @@ ASSUMPTIONS = [
     "rewards are compared with a float32 tolerance (1e-5 relative to the sum of |summands|); ids < 2**24 are exact in float32",
     "truncation is not modelled: the buffer only sees the 'done' field, as in train_off_policy",
 ]
-REQUIRED_COUNTERS = ["nstep_rows_checked", "alignment_rows_compared", "rows_with_terminal_in_window", "paired_batches_checked"]
+REQUIRED_COUNTERS = ["loop_nstep_rows_checked", "nstep_rows_checked", "alignment_rows_compared", "rows_with_terminal_in_window", "paired_batches_checked"]
 CASE_TIMEOUT_S = 1800  # no blocking operation exists in a case; generous because a loaded host stalled 40 ms cases for > 300 s
 
 GAMMAS = [0.0, 0.5, 0.9, 1.0]
@@ -117,6 +117,13 @@ def cases(tier, seed):
                 "seed": int(rng.integers(1 << 30)),
             }
         )
+    # second workload: the real train_off_policy fills and samples both buffers (vf/props/c10_loops.py)
+    from vf.props.c10_loops import loop_cases
+
+    loops = loop_cases(tier, seed)
+    stride = max(1, len(out) // max(1, len(loops)))
+    for i, c in enumerate(loops):
+        out.insert(min(len(out), i * stride + i), c)
     return out
 
 
@@ -480,6 +487,12 @@ def finalize(ctx):
             "streams_enumerated": int(sum(sp["configs"].values())),
             "exhaustive": all(v == full for v in sp["configs"].values()),
         }
+    c = ctx["counters"]
+    if c.get("loop_monitor_errors", 0) > 0:
+        ex = []
+        for r in ctx["results"].values():
+            ex += (r.get("extra") or {}).get("loop_monitor_errors", [])
+        ctx["inconclusive"].append(f"loop workload: {int(c['loop_monitor_errors'])} monitor errors: {ex[:2]}")
     return {"exhaustive_subspaces": out} if out else {}
 
 
@@ -487,6 +500,17 @@ def run_case(case):
     from vf.core import CaseTimeout
 
     rec = Recorder()
+    if case.get("mode") == "loop":
+        from vf.props.c10_loops import run_loop_case
+
+        try:
+            run_loop_case(case, rec)
+        except CaseTimeout:
+            raise
+        except Exception as e:
+            rec.crash(e, "crash", "train_off_policy loop workload (driver)")
+            rec.nontrivial = True
+        return rec.result()
     E, n, gamma, cap = case["E"], case["n"], case["gamma"], case["cap"]
     saw = False
     try:
